@@ -15,7 +15,7 @@ namespace {
    vf::Options opt;
    bool verbose = false;
 
-   constexpr int NP = 4, NV = 3;
+   constexpr int NP = 5, NV = 3;
 
    struct World {
       ipr::impl::Lexicon lex;
@@ -26,12 +26,15 @@ namespace {
       World()
       {
          auto& region = *unit.global_region();
-         auto* m1 = lex.make_mapping(region, ipr::Mapping_level{ 0 });
+         // two lists at the SAME nesting level (their members share level and position pairwise) and one deeper
+         auto* m1 = lex.make_mapping(region, ipr::Mapping_level{ 1 });
          auto* m2 = lex.make_mapping(region, ipr::Mapping_level{ 1 });
+         auto* m3 = lex.make_mapping(m2->inputs.region(), ipr::Mapping_level{ 2 });
          P.push_back(m1->param(lex.get_identifier(u8"a"), lex.int_type()));
          P.push_back(m1->param(lex.get_identifier(u8"b"), lex.int_type()));
-         P.push_back(m2->param(lex.get_identifier(u8"a"), lex.int_type()));         // same name, other list
-         P.push_back(m2->param(lex.get_identifier(u8"c"), lex.typename_type()));
+         P.push_back(m2->param(lex.get_identifier(u8"a"), lex.int_type()));         // same name, level and position as P[0], other list
+         P.push_back(m2->param(lex.get_identifier(u8"c"), lex.typename_type()));    // same level and position as P[1]
+         P.push_back(m3->param(lex.get_identifier(u8"a"), lex.int_type()));         // same name and position as P[0], deeper level
          V.push_back(lex.make_literal(lex.int_type(), u8"7"));
          V.push_back(lex.make_id_expr(lex.get_identifier(u8"x")));
          V.push_back(P[1]);                                                          // a value that is itself a parameter
@@ -111,6 +114,57 @@ namespace {
       rep.member("outcomes", fin);
    }
 
+   // Histories over the alphabet {bind(p,v) : NP*NV} + {query(p) : NP}: queries and bindings interleaved in EVERY order
+   // (a lookup that remembers what it answered last is only wrong for particular query/rebind orders).
+   constexpr int NOPS = NP * NV + NP;
+   std::string ops_text(const std::vector<int>& h)
+   {
+      std::string s;
+      for (int o : h) s += o < NP * NV ? "p" + std::to_string(o / NV) + ":=v" + std::to_string(o % NV) + " " : "?p" + std::to_string(o - NP * NV) + " ";
+      return s;
+   }
+   void interleaved(const std::vector<int>& h)
+   {
+      World w;
+      auto* gs = w.lex.make_general_substitution();
+      const ipr::Substitution& s = *gs;
+      std::map<int, int> model;
+      for (std::size_t i = 0; i < h.size(); ++i) {
+         rep.count("transitions");
+         if (h[i] < NP * NV) { gs->subst(*w.P[h[i] / NV], *w.V[h[i] % NV]); model[h[i] / NV] = h[i] % NV; continue; }
+         const int q = h[i] - NP * NV;
+         const ipr::Expr* got = &s[*w.P[q]];
+         auto it = model.find(q);
+         const ipr::Expr* want = it == model.end() ? static_cast<const ipr::Expr*>(w.P[q]) : w.V[it->second];
+         rep.count("states");
+         if (got == want) continue;
+         std::vector<long long> ops(h.begin(), h.begin() + long(i) + 1);
+         bool stale = false;
+         for (std::size_t k = 0; k < i; ++k) if (h[k] < NP * NV and h[k] / NV == q and got == w.V[h[k] % NV]) stale = true;
+         const std::string key = it == model.end() ? "C16:general:out-of-domain" : stale ? "C16:general:stale-binding" : "C16:general:in-domain";
+         rep.violation(key, (long long) i + 1, std::string(it == model.end() ? "a parameter outside the domain is not returned unchanged" : stale ? "an earlier binding is returned instead of the latest one" : "the bound expression is not returned")
+                       + " [operations: " + ops_text(std::vector<int>(h.begin(), h.begin() + long(i) + 1)) + "]", vf::JObj{}.str("pass", "C16").num("mode", 2).raw("ops", vf::jarr(ops)).done());
+         if (verbose) std::printf("  VIOLATION %s at step %zu of %s\n", key.c_str(), i, ops_text(h).c_str());
+      }
+      rep.count("traces");
+   }
+   void enumerate_interleaved(int depth)
+   {
+      long long idx = 0;
+      for (int d = 2; d <= depth; ++d) {
+         std::vector<int> h(std::size_t(d), 0);
+         while (true) {
+            // a history ending with a binding adds nothing over its prefix
+            if (h.back() >= NP * NV and opt.mine(idx++)) interleaved(h);
+            int i = d - 1;
+            while (i >= 0 and ++h[std::size_t(i)] == NOPS) h[std::size_t(i--)] = 0;
+            if (i < 0) break;
+            if ((idx & 0x3fff) == 0 and opt.expired()) { rep.cap("deadline at interleaved depth " + std::to_string(d)); return; }
+         }
+         if (opt.shard == 0) rep.maxi("max_interleaved_depth", d);
+      }
+   }
+
    void enumerate(int depth)
    {
       std::vector<int> h;
@@ -140,7 +194,8 @@ int main(int argc, char** argv)
       auto ops = vf::json_int_array(text, "ops");
       std::vector<int> h(ops.begin(), ops.end());
       std::printf("replay C16: %s (mode %lld)\n", binding_text(h).c_str(), vf::json_int(text, "mode"));
-      if (vf::json_int(text, "mode") == 0 and h.size() == 1) { World w; elementary(w, h[0] / NV, h[0] % NV); }
+      if (vf::json_int(text, "mode") == 2) { std::printf("operations: %s\n", ops_text(h).c_str()); interleaved(h); }
+      else if (vf::json_int(text, "mode") == 0 and h.size() == 1) { World w; elementary(w, h[0] / NV, h[0] % NV); }
       else general(h);
       for (auto& [k, v] : rep.viols) std::printf("violated: %s  (%s)\n", k.c_str(), v.what.c_str());
       return rep.viols.empty() ? 0 : 1;
@@ -152,9 +207,10 @@ int main(int argc, char** argv)
    }
    const int depth = opt.thorough() ? 5 : 4;
    enumerate(depth);
+   enumerate_interleaved(opt.thorough() ? 6 : 5);
    if (opt.shard == 0) {
       rep.info("bounds", vf::JObj{}.num("parameters", NP).num("values", NV).num("max_binding_sequence_length", depth)
-                            .str("parameters_from", "two parameter lists; two parameters share a name; one value is itself a parameter").done());
+                            .num("interleaved_operation_history_depth", opt.thorough() ? 6 : 5).str("parameters_from", "three parameter lists, two at the same level (members share level+position pairwise), three parameters share a name; one value is itself a parameter").done());
       rep.sample(vf::JObj{}.str("bindings", "p0:=v0 p2:=v2 p0:=v1").str("checked", "after each step, s[p] for all 4 parameters == last binding or p itself").done());
       rep.sample(vf::JObj{}.str("elementary", "p1:=v2").str("checked", "s[p1]==v2, s[q]==q for q!=p1").done());
    }
